@@ -750,39 +750,30 @@ Ip::Address::operator !=(const Ip::Address &s) const
     return ! ( operator==(s) );
 }
 
+// The ordering operators below must agree with matchIPAddr() for all values,
+// including the IPv4 "any" and "no" addresses. ACL splay trees (and any other
+// ordered container) are built with one and searched with the other.
 bool
 Ip::Address::operator <=(const Ip::Address &rhs) const
 {
-    if (isAnyAddr() && !rhs.isAnyAddr())
-        return true;
-
     return (matchIPAddr(rhs) <= 0);
 }
 
 bool
 Ip::Address::operator >=(const Ip::Address &rhs) const
 {
-    if (isNoAddr() && !rhs.isNoAddr())
-        return true;
-
     return ( matchIPAddr(rhs) >= 0);
 }
 
 bool
 Ip::Address::operator >(const Ip::Address &rhs) const
 {
-    if (isNoAddr() && !rhs.isNoAddr())
-        return true;
-
     return ( matchIPAddr(rhs) > 0);
 }
 
 bool
 Ip::Address::operator <(const Ip::Address &rhs) const
 {
-    if (isAnyAddr() && !rhs.isAnyAddr())
-        return true;
-
     return ( matchIPAddr(rhs) < 0);
 }
 
